@@ -8,6 +8,7 @@ import argparse
 import importlib
 import json
 import os
+import random
 import subprocess
 import sys
 import tempfile
@@ -177,8 +178,16 @@ def run_check(pid, tier, seed):
     csumm = discharge(all_covers, use_cvc5=False, z3_timeout=3000)
     disagreements = []
     cvc5_decided = 0
+    second_sampled = 0
     if tier == "thorough":
-        disagreements, cvc5_decided, _ = second_opinion(all_obs + lemma_obs)
+        # independent second discharge with cvc5: every lemma obligation and a seeded sample of the code obligations (bounded so that the
+        # thorough tier of the largest property stays within tens of minutes); the sample size is reported in the evidence
+        cap = int(os.environ.get("VERIF_SECOND_OPINION_MAX", "1200"))
+        pool = list(all_obs)
+        random.Random(seed).shuffle(pool)
+        sample = lemma_obs + pool[:cap]
+        second_sampled = len(sample)
+        disagreements, cvc5_decided, _ = second_opinion(sample)
     native = finish_native(proc, npath, budget * max(1, len(native_keys)) + 120)
 
     # ---- classify -------------------------------------------------------------------------
@@ -400,7 +409,7 @@ def run_check(pid, tier, seed):
             "covers": {"total": len(all_covers), "sat": sum(1 for o in all_covers if o.verdict == "sat"),
                        "not_refuted_within_budget": sum(1 for o in all_covers if o.verdict not in ("sat", "unsat")),
                        "refuted": len(cover_refuted)},
-            "second_solver": {"cvc5_decided": cvc5_decided, "disagreements": len(disagreements)} if tier == "thorough" else None,
+            "second_solver": {"cvc5_checked": second_sampled, "cvc5_decided": cvc5_decided, "disagreements": len(disagreements)} if tier == "thorough" else None,
             "bounded_standins": {"note": "run-time evaluation of the same contract clauses on the real code over generated inputs; BOUNDED, never counted as proved",
                                  "harnesses": native_rows},
             "traces_validated_against_impl": sum(v.get("cases", 0) or 0 for v in nres.values()),
